@@ -19,18 +19,25 @@ theorem ceil_div_cast (N n : Nat) (h : 0 < n) :
   have e : ((N : Int) + (n : Int)) - 1 = ((N + n - 1 : Nat) : Int) := by omega
   rw [e]; exact (Int.natCast_ediv _ _).symm
 
+/-- the same for any spelling of the numerator (`N + n - 1`, `N + (n - 1)`, …): side condition discharged by `omega` -/
+theorem ceil_div_cast' (N n : Nat) (h : 0 < n) (a : Int) (ha : a = (N : Int) + (n : Int) - 1) :
+    Int.fdiv a (n : Int) = (((N + n - 1) / n : Nat) : Int) := by
+  rw [ha]; exact ceil_div_cast N n h
+
 /-- `CogMeta.chunked` -/
 theorem tie_cogmeta_chunked (m : Meta) (hx : 0 < m.tile.x) (hy : 0 < m.tile.y) :
     Gen.C05.cogmeta_chunked m.toPy = .ok ((m.chunked.x : Int), (m.chunked.y : Int)) := by
   have h1 : (m.tile.x : Int) ≠ 0 := by omega
   have h2 : (m.tile.y : Int) ≠ 0 := by omega
-  simp only [Gen.C05.cogmeta_chunked, Meta.toPy, Meta.chunked, if_neg h1, if_neg h2, ceil_div_cast _ _ hx, ceil_div_cast _ _ hy]
+  simp (disch := omega) only [Gen.C05.cogmeta_chunked, Meta.toPy, Meta.chunked, if_neg h1, if_neg h2,
+    ceil_div_cast' m.shape.x m.tile.x hx, ceil_div_cast' m.shape.y m.tile.y hy]
 
 /-- `CogMeta.num_tiles` -/
 theorem tie_cogmeta_num_tiles (m : Meta) (hx : 0 < m.tile.x) (hy : 0 < m.tile.y) :
     Gen.C05.cogmeta_num_tiles m.toPy = .ok ((m.numTiles : Nat) : Int) := by
   simp only [Gen.C05.cogmeta_num_tiles, tie_cogmeta_chunked m hx hy, Meta.numTiles]
-  simp only [Meta.toPy]; push_cast; rfl
+  simp only [Meta.toPy]; push_cast
+  first | rfl | (congr 1; ring1) | tie_fin
 
 /-- `CogMeta.flat_tile_idx((sample, y, x))` -/
 theorem tie_cogmeta_flat_tile_idx (m : Meta) (hx : 0 < m.tile.x) (hy : 0 < m.tile.y) (s y x : Int) :
